@@ -238,21 +238,38 @@ func explore(t *rapid.T, sc scenario) (conflict string, nontrivial bool, w *worl
 	w.genesis = g
 	w.blocks = []*blk{g}
 	// optional weight change at one height (same on every branch), keeping the fault bound for the new set as well
-	if rapid.IntRange(0, 3).Draw(t, "withChange") == 0 && !sc.overBound {
-		nw := append([]uint64{}, w.weights...)
-		i := rapid.IntRange(0, n-1).Draw(t, "changeIdx")
-		nw[i] = rapid.Uint64Range(1, 4).Draw(t, "changeW")
-		var W2, f2 uint64
-		for j, x := range nw {
-			W2 += x
-			if w.byz[j] {
-				f2 += x
+	if rapid.IntRange(0, 2).Draw(t, "withChange") == 0 && !sc.overBound {
+		for try := 0; try < 4 && w.change == nil; try++ {
+			nw := append([]uint64{}, w.weights...)
+			switch rapid.SampledFrom([]string{"one", "several", "several"}).Draw(t, "changeKind") {
+			case "one":
+				i := rapid.IntRange(0, n-1).Draw(t, "changeIdx")
+				nw[i] = rapid.Uint64Range(1, 4).Draw(t, "changeW")
+			default:
+				// several validators are re-weighted together (e.g. all but one doubled)
+				keep := rapid.IntRange(0, n-1).Draw(t, "changeKeep")
+				f := rapid.Uint64Range(2, 3).Draw(t, "changeFactor")
+				for i := range nw {
+					if i != keep && rapid.IntRange(0, 3).Draw(t, "changeThis") != 0 {
+						nw[i] *= f
+					}
+				}
 			}
-		}
-		tau2 := W2*2/3 + 1
-		if 3*f2 < W2 && f2+W2/3+1 <= tau2 {
-			w.change = &paramChange{atHeight: uint32(rapid.IntRange(2, 12).Draw(t, "changeAt")), params: w.params(nw, tau2)}
-			w.hist = append(w.hist, fmt.Sprintf("weights change to %v (threshold %d) in block %d", nw, tau2, w.change.atHeight))
+			var W2, f2 uint64
+			for j, x := range nw {
+				W2 += x
+				if w.byz[j] {
+					f2 += x
+				}
+			}
+			tau2 := W2*2/3 + 1
+			if rapid.Bool().Draw(t, "changeLowThreshold") && W2/3+1+f2 <= W2 {
+				tau2 = rapid.Uint64Range(W2/3+1+f2, W2).Draw(t, "changeTau")
+			}
+			if 3*f2 < W2 && f2+W2/3+1 <= tau2 && mixedQuorumsIntersectHonestly(w.weights, tau, nw, tau2, w.byz) {
+				w.change = &paramChange{atHeight: uint32(rapid.IntRange(2, 12).Draw(t, "changeAt")), params: w.params(nw, tau2)}
+				w.hist = append(w.hist, fmt.Sprintf("weights change to %v (threshold %d) in block %d", nw, tau2, w.change.atHeight))
+			}
 		}
 	}
 	w.known = make([]map[int]bool, n)
@@ -372,9 +389,12 @@ func explore(t *rapid.T, sc scenario) (conflict string, nontrivial bool, w *worl
 			tip := w.cur[owner]
 			b := w.newBlock(tip, owner, w.maxGen[owner], false)
 			if b == nil {
-				t.Fatalf("header of a protocol-following validator is flagged as contradicting\n%s", strings.Join(w.hist, "\n"))
+				t.Fatalf("header of a protocol-following validator is flagged as contradicting: slot %d v%d on #%d (h=%d mhg=%d mhp=%d; its last own block on that chain is at height %d)\n%s",
+					s, owner, tip.id, tip.h+1, w.maxGen[owner], tip.sPrev, genOnChain(tip, owner), strings.Join(w.hist, "\n"))
 			}
-			w.maxGen[owner] = b.h
+			if b.h > w.maxGen[owner] { // the LARGEST height ever generated, also after forging at a lower height on a better chain
+				w.maxGen[owner] = b.h
+			}
 			w.hist = append(w.hist, fmt.Sprintf("slot %d: honest v%d forges #%d on #%d (h=%d mhg=%d mhp=%d) -> prevoted=%d precommitted=%d", s, owner, b.id, tip.id, b.h, b.mhg, b.mhp, b.sPrev, b.sPrec))
 			for v := 0; v < n; v++ {
 				if sameGroup(owner, v) {
@@ -510,6 +530,50 @@ func explore(t *rapid.T, sc scenario) (conflict string, nontrivial bool, w *worl
 		}, labels...)
 	}
 	return conflict, nontrivial, w
+}
+
+// mixedQuorumsIntersectHonestly: the Lisk-BFT safety argument intersects a precommit quorum of one block with a prevote quorum of a
+// conflicting one. Across a weight change the two quorums are measured with DIFFERENT weight vectors, so "f < 1/3 in each set" is
+// not enough (a validator jumping from 1/4 to 4/7 of the weight forms a new-set quorum with a Byzantine validator alone while
+// the other honest validators plus the same Byzantine one form an old-set quorum). The generated changes are restricted to those
+// for which every (prevote|precommit)-quorum under one vector and every prevote-quorum under the other share an honest validator,
+// which is what the theorem's proof needs; anything else is a protocol-level limit, not a counting defect of the engine.
+func mixedQuorumsIntersectHonestly(wA []uint64, tauA uint64, wB []uint64, tauB uint64, byz []bool) bool {
+	n := len(wA)
+	sum := func(w []uint64, set int) (t uint64) {
+		for i := 0; i < n; i++ {
+			if set&(1<<uint(i)) != 0 {
+				t += w[i]
+			}
+		}
+		return
+	}
+	var WA, WB uint64
+	for i := 0; i < n; i++ {
+		WA += wA[i]
+		WB += wB[i]
+	}
+	pvA, pvB := WA*2/3+1, WB*2/3+1
+	honest := 0
+	for i := 0; i < n; i++ {
+		if !byz[i] {
+			honest |= 1 << uint(i)
+		}
+	}
+	for s1 := 1; s1 < 1<<uint(n); s1++ {
+		a := sum(wA, s1)
+		for s2 := 1; s2 < 1<<uint(n); s2++ {
+			if s1&s2&honest != 0 {
+				continue
+			}
+			b := sum(wB, s2)
+			// precommit_A x prevote_B, prevote_A x precommit_B, prevote_A x prevote_B
+			if (a >= tauA && b >= pvB) || (a >= pvA && b >= tauB) || (a >= pvA && b >= pvB) {
+				return false
+			}
+		}
+	}
+	return true
 }
 
 func seq(n int) []int {
